@@ -65,7 +65,7 @@ TraceNext ==
     \/ IsEvent("exit") /\ ProcExit(Ev.c, Ev.w)
     \/ IsEvent("vmgone") /\ VmGone(Ev.w)
     \/ IsEvent("restart") /\ (IF mode = "sound" THEN SoftRestart ELSE Restart)
-    \/ (IsEvent("kill") \/ IsEvent("create") \/ IsEvent("note") \/ IsEvent("final") \/ IsEvent("crashed")) /\ Other
+    \/ (IsEvent("kill") \/ IsEvent("create") \/ IsEvent("note") \/ IsEvent("final") \/ IsEvent("crashed") \/ IsEvent("broken")) /\ Other
 
 TraceSpec == TraceInit /\ [][TraceNext]_<<dcvars, l>>
 =============================================================================
